@@ -295,9 +295,137 @@ class Run(object):
                 self.impl.cfg.needs_save(), self.counter % 3, self.held is not None)
 
 
+SCRIPT_OPS = ['append', 'insert0', 'remove0', 'pop', 'setitem0', 'extend']
+
+
+def run_script(kind, name, op, pre):
+    """scripted sequences outside the BFS alphabet:
+    kind 'assign-then-mutate': (pre = 'none' | 'rejected-save') X = [a, b]; <op> on what reading X gives; save.
+        Reading an option before the save gives Tor's current value, so the operation may land on a list that is not the pending
+        one: the SETCONF must carry the assigned list, or the assigned list with the operation applied - nothing else.
+    kind 'foreign-change': another controller changes list option X (CONF_CHANGED); then the user changes a scalar and saves:
+        the SETCONF names the scalar only."""
+    from refs import ctlcodec
+    viol = []
+    log = []
+    with World() as w:
+        table = [(name, list(INITIAL[name])), ('IntOpt', ['5'])]
+        impl = CfgImpl(w, table)
+        cfg, sim = impl.cfg, impl.sim
+        if impl.boot != ['ok']:
+            return dict(viol=[('bootstrap', 'x', repr(impl.boot))], obs=('x',), log=log)
+        a, b, c, d = [LIST_VALUES[name][i % 3] for i in range(4)]
+        b = b + '2'
+        base = len(sim.commands)
+        try:
+            if kind == 'assign-then-mutate':
+                if pre == 'rejected-save':
+                    setattr(cfg, name, [c])
+                    sim.override('SETCONF', (513, [('line', 'Unacceptable option value: rejected by the harness')]))
+                    cfg.save().addErrback(lambda f: None)
+                    sim.pump()
+                    base = len(sim.commands)
+                setattr(cfg, name, [a, b])
+                lst = getattr(cfg, name)
+                assigned = [a, b]
+                mutated = list(assigned)
+                if op == 'append':
+                    lst.append(c); mutated.append(c)
+                elif op == 'extend':
+                    lst.extend([c, d]); mutated.extend([c, d])
+                elif op == 'insert0':
+                    lst.insert(0, c); mutated.insert(0, c)
+                elif op == 'remove0':
+                    lst.remove(lst[0]); mutated.pop(0)
+                elif op == 'pop':
+                    lst.pop(); mutated.pop()
+                elif op == 'setitem0':
+                    lst[0] = c; mutated[0] = c
+                log.append('%s = %r; %s on the value read back; save' % (name, assigned, op))
+                res = []
+                cfg.save().addCallbacks(lambda x: res.append('ok'), lambda f: res.append('err'))
+                sim.pump()
+                setconfs = [x for x in sim.commands[base:] if x.startswith('SETCONF')]
+                if len(setconfs) != 1:
+                    viol.append(('not-one-setconf', 'assign-then-mutate', '%r' % (sim.commands[base:],)))
+                else:
+                    items = kvline.parse(setconfs[0][len('SETCONF'):])
+                    vals = [v for k, v in items if k == name]
+                    ok = [tor_repr(name, assigned), tor_repr(name, mutated)]
+                    got = vals if TYPES[name][1] != 'comma' else vals
+                    if TYPES[name][1] == 'comma':
+                        # (comma lists are sent as repeated keys on this tree - a recorded finding; compare element-wise)
+                        ok = [[str(x) for x in assigned], [str(x) for x in mutated]] + ok
+                    if got not in ok:
+                        viol.append(('assignment-lost', '%s/%s' % (op, pre), 'after %s = %r and %s on the value read back, the SETCONF carries %r for it (%r)'
+                                     % (name, assigned, op, vals, setconfs[0])))
+            elif kind == 'assign-string':
+                # a comma-list option assigned as text ('x,y'), saved, then edited in place
+                setattr(cfg, name, '%s,%s' % (a, b))
+                cfg.save().addErrback(lambda f: None)
+                sim.pump()
+                base2 = len(sim.commands)
+                log.append("%s = '%s,%s'; save; append; save" % (name, a, b))
+                getattr(cfg, name).append(c)
+                if not cfg.needs_save():
+                    viol.append(('needs-save-false-after-change', 'append/after-text-assignment', 'after %s was assigned as text and saved, append() on it is not tracked' % name))
+                cfg.save().addErrback(lambda f: None)
+                sim.pump()
+                want = [a, b, c]
+                got = [x.strip() for v in sim.conf[name] for x in v.split(',')]
+                if got != want and not viol:
+                    viol.append(('store-differs-after-save', 'comma', 'Tor has %r, the user\'s list is %r (commands %r)' % (sim.conf[name], want, sim.commands[base2:])))
+            elif kind == 'failed-op':
+                lst = getattr(cfg, name)
+                try:
+                    if op == 'remove-missing':
+                        lst.remove('no such element')
+                    elif op == 'setitem-out-of-range':
+                        lst[99] = c
+                    elif op == 'pop-out-of-range':
+                        lst.pop(99)
+                    viol.append(('operation-did-not-raise', op, name))
+                except (ValueError, IndexError):
+                    pass
+                log.append('%s on %s raised; save' % (op, name))
+                if cfg.needs_save():
+                    viol.append(('needs-save-true-after-failed-operation', op, 'an in-place operation that raised (and changed nothing) left %s pending' % name))
+                cfg.save().addErrback(lambda f: None)
+                sim.pump()
+                if sim.commands[base:]:
+                    viol.append(('save-wrote-without-changes', 'after-failed-operation/' + op, 'nothing was changed, save() wrote %r' % (sim.commands[base:],)))
+            else:
+                new = [a, b] if name != 'CommaOpt' else ['%s,%s' % (a, b)]
+                sim.conf[name] = list(new)
+                lines = [''] + ['%s=%s' % (name, v) for v in new]
+                sim.event_bytes(ctlcodec.encode_event('CONF_CHANGED', 'multi', lines))
+                sim.pump()
+                log.append('CONF_CHANGED %r; IntOpt = 7; save' % (new,))
+                if cfg.needs_save():
+                    viol.append(('needs-save-true-after-foreign-change', name, 'a CONF_CHANGED event left needs_save() True'))
+                cfg.IntOpt = 7
+                cfg.save().addErrback(lambda f: None)
+                sim.pump()
+                setconfs = [x for x in sim.commands[base:] if x.startswith('SETCONF')]
+                if len(setconfs) != 1:
+                    viol.append(('not-one-setconf', 'foreign-change', '%r' % (sim.commands[base:],)))
+                else:
+                    keys = sorted(set(k for k, v in kvline.parse(setconfs[0][len('SETCONF'):])))
+                    if keys != ['IntOpt']:
+                        viol.append(('setconf-keys', 'unchanged-option-named/after-foreign-change',
+                                     'only IntOpt was changed locally (after another controller changed %s), SETCONF names %r' % (name, keys)))
+        except Exception as e:
+            viol.append(('operation-raised', '%s/%s' % (kind, type(e).__name__), '%r' % (e,)))
+        errs = w.errors()
+        if errs and not viol:
+            viol.append(('logged-error', errs[0][1], '%r' % (errs[:1],)))
+        obs = tuple(sim.commands[base:])
+    return dict(viol=viol, obs=obs, log=log)
+
+
 def tasks(tier, seed):
     names = list(INITIAL)
-    out = []
+    out = [('script',)]
     d1 = 4 if tier == 'quick' else 5
     d2 = 3 if tier == 'quick' else 4
     for n in names:
@@ -314,6 +442,29 @@ def tasks(tier, seed):
 
 
 def run_task(param, acc):
+    if param[0] == 'script':
+        for name in LIST_VALUES:
+            for op in SCRIPT_OPS:
+                for pre in ('none', 'rejected-save'):
+                    r = run_script('assign-then-mutate', name, op, pre)
+                    acc.execution(key=('script', name, op, pre), outcome='script/' + ('/'.join(sorted(set(v[0] for v in r['viol']))) or 'ok'), nontrivial=True, steps=4)
+                    for cl, ft, dt in r['viol']:
+                        acc.violation('%s/%s' % (cl, ft), dt, dict(script='assign-then-mutate', name=name, op=op, pre=pre), cost=5)
+            for op in ('remove-missing', 'setitem-out-of-range', 'pop-out-of-range'):
+                r = run_script('failed-op', name, op, None)
+                acc.execution(key=('script', name, op), outcome='script/' + ('/'.join(sorted(set(v[0] for v in r['viol']))) or 'ok'), nontrivial=True, steps=3)
+                for cl, ft, dt in r['viol']:
+                    acc.violation('%s/%s' % (cl, ft), dt, dict(script='failed-op', name=name, op=op, pre=None), cost=4)
+            if TYPES[name][1] == 'comma':
+                r = run_script('assign-string', name, None, None)
+                acc.execution(key=('script', name, 'assign-string'), outcome='script/' + ('/'.join(sorted(set(v[0] for v in r['viol']))) or 'ok'), nontrivial=True, steps=4)
+                for cl, ft, dt in r['viol']:
+                    acc.violation('%s/%s' % (cl, ft), dt, dict(script='assign-string', name=name, op=None, pre=None), cost=4)
+            r = run_script('foreign-change', name, None, None)
+            acc.execution(key=('script', name, 'foreign'), outcome='script/' + ('/'.join(sorted(set(v[0] for v in r['viol']))) or 'ok'), nontrivial=True, steps=4)
+            for cl, ft, dt in r['viol']:
+                acc.violation('%s/%s' % (cl, ft), dt, dict(script='foreign-change', name=name, op=None, pre=None), cost=5)
+        return
     options, depth = param
     seen = set()
     r0 = Run(options, ())
@@ -352,6 +503,9 @@ def handle(acc, options, hist, r):
 
 
 def replay(p):
+    if p.get('script'):
+        r = run_script(p['script'], p['name'], p['op'], p['pre'])
+        return dict(violations=[dict(signature='%s/%s' % (c, f), what=d) for c, f, d in r['viol']], log=r['log'])
     hist = tuple(tuple(o) for o in p['history'])
     r = Run(tuple(p['options']), hist)
     return dict(violations=[dict(signature='%s/%s' % (c, f), what=d + '   history: %r' % (hist,)) for c, f, d in r.viol],
